@@ -298,6 +298,38 @@ def is_exact(spec):
     return spec["geom"] in ("grid", "collinear_axis", "collinear_diag", "collinear_int")
 
 
+# ------------------------------------------------------------------ shipped molecule pairs
+SHIPPED = [("Protein_CG.gro", "Protein_CG.itp", "Protein_AA.gro", "Protein_AA.itp"),
+           ("CUR_map.gro", "CUR_CG.itp", "CUR_AA.gro", "CUR_AA.itp"),
+           ("VTE_map.gro", "vitamin_E_CG.itp", "VTE_AA.gro", "VTE_AA.itp"),
+           ("BF4_CG.gro", "BF4_CG.itp", "BF4_AA.gro", "BF4_AA.itp"),
+           ("DNA_map.gro", "DNA_CG.itp", "DNA_AA.gro", "DNA_AA.itp")]
+_SHIPPED_CACHE = []
+
+
+def shipped_specs(max_ref=10 ** 6):
+    """the reference (coarse-grained, overlapped) / target (atomistic) pairs shipped in gaddlemaps/data as specs
+    (bond graph and positions read from the loaded Molecule objects); missing files are skipped"""
+    import os
+    import gaddlemaps
+    from gaddlemaps.components import Molecule
+    if not _SHIPPED_CACHE:
+        d = os.path.join(os.path.dirname(gaddlemaps.__file__), "data")
+        for rg, ri, tg, ti in SHIPPED:
+            try:
+                r = Molecule.from_files(os.path.join(d, rg), os.path.join(d, ri))
+                t = Molecule.from_files(os.path.join(d, tg), os.path.join(d, ti))
+            except Exception:
+                continue
+            bonds = sorted({(min(hash(a), b), max(hash(a), b)) for a in r for b in a.bonds})
+            for s in (1.0, 0.5):
+                _SHIPPED_CACHE.append({"n_ref": len(r), "graph": "shipped", "geom": "shipped_" + rg.split("_")[0],
+                                       "bonds": [list(b) for b in bonds],
+                                       "ref": np.array(r.atoms_positions, dtype=float).tolist(),
+                                       "tgt": np.array(t.atoms_positions, dtype=float).tolist(), "s": s})
+    return [sp for sp in _SHIPPED_CACHE if sp["n_ref"] <= max_ref]
+
+
 # ------------------------------------------------------------------ K driver
 def run_K(ctx, items, oracle_on_disagreement):
     """items: list of (spec, refp, meta).  Runs the implementation, evaluates the model, fills ctx.cov['K'] and
